@@ -278,6 +278,46 @@ func run(c Case) evid.Outcome {
 			}
 		}
 	}
+	// One compiler for the whole module, as `glyph run` and the JIT's callers use it: what the
+	// optimizer learned in one route body must not colour the next one (in either order).
+	if len(routes) > 1 {
+		for _, lv := range []compiler.OptimizationLevel{compiler.OptBasic, compiler.OptAggressive} {
+			for _, order := range [][]int{{0, 1}, {1, 0}} {
+				shared := compiler.NewCompilerWithOptLevel(lv)
+				for _, ri := range order {
+					bc0, base := compileAt(glyphrun.RouteInForm(routes[ri], c.Form, c.MixSeed), compiler.OptNone)
+					var cr result
+					var bc []byte
+					func() {
+						defer func() {
+							if p := recover(); p != nil {
+								cr = result{panicked: fmt.Sprint(p)}
+							}
+						}()
+						b, err := shared.CompileRoute(glyphrun.RouteInForm(routes[ri], c.Form, c.MixSeed))
+						if err != nil {
+							cr = result{compileErr: err.Error()}
+						}
+						bc = b
+					}()
+					if !same(base, cr) {
+						return evid.Failf("c03.shared-compiler-differs", "form %s, level %d, one compiler for routes in order %v: compile outcome of route %d differs\n  O0: %s\n  O%d: %s\n--- source ---\n%s", c.Form, lv, order, ri, base, lv, cr, src)
+					}
+					if base.compileErr != "" {
+						continue
+					}
+					for bi, b := range c.Bindings {
+						want, got := execute(bc0, b), execute(bc, b)
+						if !same(want, got) {
+							bj, _ := json.Marshal(b)
+							return evid.Failf("c03.shared-compiler-differs", "form %s, level %d, one compiler for routes in order %v: route %d, binding %d %s behaves differently\n  O0: %s\n  O%d: %s\n--- source ---\n%s", c.Form, lv, order, ri, bi, bj, want, lv, got, src)
+						}
+					}
+				}
+			}
+		}
+		labels = append(labels, "shared-compiler-two-routes")
+	}
 	o := evid.Outcome{Nontrivial: nontrivial, Labels: dedup(labels)}
 	bj, _ := json.Marshal(c.Bindings)
 	o.Canon = c.Form + src + string(bj)
